@@ -13,6 +13,7 @@ import (
 	"path/filepath"
 	"sort"
 	"strings"
+	"strconv"
 	"sync"
 	"syscall"
 	"time"
@@ -30,6 +31,13 @@ type UEntry struct {
 	Mtime int64  `json:"mtime"`
 	Link  string `json:"link"`
 	Body  string `json:"body"`
+	// time decorations of the header; the zero values give the archive shape of the earlier rounds (a PAX
+	// header, mtime in whole seconds, no access/change time recorded)
+	MtimeNs  int64  `json:"mtime_ns,omitempty"`  // fraction of a second on top of Mtime (0..999999999)
+	HasAtime bool   `json:"has_atime,omitempty"` // the header records an access time (Atime, seconds) ...
+	Atime    int64  `json:"atime,omitempty"`
+	Ctime    int64  `json:"ctime,omitempty"` // ... and, if non-zero, a change time
+	Fmt      string `json:"fmt,omitempty"`   // "" = PAX, "gnu" = GNU, "auto" = tar.FormatUnknown (what Pack writes: USTAR if it fits, times rounded, no atime)
 }
 
 type FSNode struct {
@@ -48,26 +56,48 @@ type UCase struct {
 	Init    []FSNode `json:"init"`  // initial arena content (paths relative to the arena)
 	Entries []UEntry `json:"entries"`
 	Fault   string   `json:"fault"`
+	// Umask: the process umask (octal) the case ran under, "" = 022. Under any other umask the case is
+	// outside the filesystem model (FS.lean has 022 built in) and only the implementation-level oracles judge.
+	Umask string `json:"umask,omitempty"`
 }
 
 const oldTime = 1300000000
+
+// tarHeaderOf is the header written for e (shared by the unpack, unpack-faults and robust lanes).
+func tarHeaderOf(e UEntry) *tar.Header {
+	h := &tar.Header{Name: e.Name, Typeflag: e.Typ, Linkname: e.Link, Mode: e.Mode,
+		ModTime: time.Unix(e.Mtime, e.MtimeNs), Format: tar.FormatPAX}
+	switch e.Fmt {
+	case "gnu":
+		h.Format = tar.FormatGNU
+	case "auto":
+		h.Format = tar.FormatUnknown
+	}
+	if e.HasAtime {
+		h.AccessTime = time.Unix(e.Atime, 0)
+		if e.Ctime != 0 {
+			h.ChangeTime = time.Unix(e.Ctime, 0)
+		}
+	}
+	if e.Typ == tar.TypeReg || e.Typ == tar.TypeRegA {
+		h.Size = int64(len(e.Body))
+	}
+	if e.Typ == tar.TypeXGlobalHeader {
+		// the record's own name is kept (tar writes it; Unpack sees it as the entry name)
+		h.Format = tar.FormatPAX
+		h.ModTime, h.AccessTime, h.ChangeTime = time.Time{}, time.Time{}, time.Time{}
+		h.Mode = 0
+		h.PAXRecords = map[string]string{"comment": "x"}
+	}
+	return h
+}
 
 func buildTarGz(es []UEntry) []byte {
 	var buf bytes.Buffer
 	gz := gzip.NewWriter(&buf)
 	tw := tar.NewWriter(gz)
 	for _, e := range es {
-		h := &tar.Header{Name: e.Name, Typeflag: e.Typ, Linkname: e.Link, Mode: e.Mode,
-			ModTime: time.Unix(e.Mtime, 0), Format: tar.FormatPAX}
-		if e.Typ == tar.TypeReg || e.Typ == tar.TypeRegA {
-			h.Size = int64(len(e.Body))
-		}
-		if e.Typ == tar.TypeXGlobalHeader {
-			// the record's own name is kept (tar writes it; Unpack sees it as the entry name)
-			h.ModTime = time.Time{}
-			h.Mode = 0
-			h.PAXRecords = map[string]string{"comment": "x"}
-		}
+		h := tarHeaderOf(e)
 		if err := tw.WriteHeader(h); err != nil {
 			continue
 		}
@@ -118,6 +148,10 @@ func specialBits(m os.FileMode) int64 {
 }
 
 func permOf(m os.FileMode) uint32 { return uint32(m.Perm()) | uint32(specialBits(m)) }
+
+// recentWindow: an mtime between the start of the run and this much later is "the time of the run" (-1);
+// times recorded in an archive may lie beyond it (2038 and later) and are reported as they are.
+const recentWindow = 24 * time.Hour
 
 // snapshot walks root (no following) and returns nodes with paths relative to root ("" = root).
 func snapshot(root string, runStart time.Time) []FSNode {
@@ -174,7 +208,7 @@ func snapshot(root string, runStart time.Time) []FSNode {
 				}
 			}
 		}
-		if mt.After(runStart.Add(-2 * time.Second)) {
+		if mt.After(runStart.Add(-2*time.Second)) && mt.Before(runStart.Add(recentWindow)) {
 			n.Mtime = -1
 		} else {
 			n.Mtime = mt.Unix()
@@ -282,7 +316,7 @@ func encStrList(xs []string) string {
 
 // materialise creates the initial arena content.
 func materialise(arena string, init []FSNode) error {
-	if err := os.MkdirAll(arena, 0755); err != nil {
+	if err := mkdirAllExact(arena, 0755); err != nil {
 		return err
 	}
 	old := time.Unix(oldTime, 0)
@@ -290,16 +324,16 @@ func materialise(arena string, init []FSNode) error {
 		p := filepath.Join(arena, n.Path)
 		switch n.Kind {
 		case "d":
-			if err := os.MkdirAll(p, 0755); err != nil {
+			if err := mkdirAllExact(p, 0755); err != nil {
 				return err
 			}
 		case "f":
-			os.MkdirAll(filepath.Dir(p), 0755)
+			mkdirAllExact(filepath.Dir(p), 0755)
 			if err := os.WriteFile(p, []byte(n.Data), 0644); err != nil {
 				return err
 			}
 		case "l":
-			os.MkdirAll(filepath.Dir(p), 0755)
+			mkdirAllExact(filepath.Dir(p), 0755)
 			if err := os.Symlink(n.Data, p); err != nil {
 				return err
 			}
@@ -317,6 +351,29 @@ func materialise(arena string, init []FSNode) error {
 	}
 	os.Chtimes(arena, old, old)
 	return nil
+}
+
+// mkdirAllExact is os.MkdirAll whose new directories get exactly perm, whatever the process umask is
+// (the lanes may run under -umask 077; what the harness itself creates must stay traversable).
+func mkdirAllExact(p string, perm os.FileMode) error {
+	if fi, err := os.Stat(p); err == nil {
+		if fi.IsDir() {
+			return nil
+		}
+		return &os.PathError{Op: "mkdir", Path: p, Err: syscall.ENOTDIR}
+	}
+	if parent := filepath.Dir(p); parent != p {
+		if err := mkdirAllExact(parent, perm); err != nil {
+			return err
+		}
+	}
+	if err := os.Mkdir(p, perm); err != nil {
+		if fi, serr := os.Stat(p); serr == nil && fi.IsDir() {
+			return nil // made by a concurrent case (shared ancestors only)
+		}
+		return err
+	}
+	return os.Chmod(p, perm)
 }
 
 type errReader struct {
@@ -468,7 +525,11 @@ type refNode struct {
 
 // refUntar interprets a well-formed entry list into an abstract tree (paths relative to dst).
 // ok=false: the archive is outside the well-formed class (the oracle then does not judge it).
-func refUntar(es []UEntry) (map[string]refNode, bool, bool) {
+// umask: a directory that Unpack creates (MkdirAll 0755) has 0755 &^ umask until - and unless - an entry of
+// its own restores the recorded mode; files and explicit directories end with their recorded bits whatever
+// the umask is (Chmod is not subject to it).
+func refUntar(es []UEntry, umask int) (map[string]refNode, bool, bool) {
+	created := uint32(0755) &^ uint32(umask)
 	tree := map[string]refNode{}
 	type dm struct {
 		p     string
@@ -485,7 +546,7 @@ func refUntar(es []UEntry) (map[string]refNode, bool, bool) {
 				}
 				continue
 			}
-			tree[d] = refNode{kind: "d", perm: 0755, mtime: -1}
+			tree[d] = refNode{kind: "d", perm: created, mtime: -1}
 		}
 		return true
 	}
@@ -525,7 +586,7 @@ func refUntar(es []UEntry) (map[string]refNode, bool, bool) {
 				return nil, false, false
 			}
 			if !exists {
-				tree[p] = refNode{kind: "d", perm: 0755, mtime: -1}
+				tree[p] = refNode{kind: "d", perm: created, mtime: -1}
 			}
 			dirs = append(dirs, dm{p, uint32(e.Mode), e.Mtime})
 		case tar.TypeSymlink:
@@ -704,7 +765,43 @@ func genEntry(r *Rng, arena string, i int) UEntry {
 			e.Link = "a"
 		}
 	}
+	genTimes(r, &e)
 	return e
+}
+
+// uMtimes: boundary values of the recorded modification time, next to the ordinary 2014 ones: the epoch
+// itself (a legal time, not "no time recorded"; seed C02-f), one second after it, both sides of the signed
+// 32-bit limit, and 8^11, the first value beyond the 11 octal digits of a ustar header (PAX record or GNU
+// base-256 field)
+var uMtimes = []int64{0, 1, 1<<31 - 1, 1 << 31, 1 << 33}
+
+// genTimes decorates the header times: boundary mtimes, fractions of a second, the header format, and - for
+// PAX and GNU headers - an access time (and change time) different from the modification time (seed
+// C15-f: the two arguments of Chtimes transposed shows only when the archive records an access time).
+func genTimes(r *Rng, e *UEntry) {
+	if r.Chance(12) {
+		e.Mtime = uMtimes[r.Intn(len(uMtimes))]
+	}
+	if r.Chance(6) {
+		e.MtimeNs = []int64{400000000, 500000000, 600000000, 999999999}[r.Intn(4)]
+	}
+	switch x := r.Intn(100); {
+	case x < 65:
+	case x < 85:
+		e.Fmt = "gnu"
+	default:
+		e.Fmt = "auto"
+	}
+	if e.Fmt != "auto" && r.Chance(30) {
+		e.HasAtime = true
+		e.Atime = []int64{e.Mtime + 86400, e.Mtime + 1, 0, 1, 1500000000, 1 << 31, 1 << 33}[r.Intn(7)]
+		if e.Atime == e.Mtime {
+			e.Atime += 3600
+		}
+		if r.Chance(70) {
+			e.Ctime = e.Mtime + 7
+		}
+	}
 }
 
 // the arena: dst sits two levels below the case directory, so that '../..' chains stay inside it
@@ -770,6 +867,10 @@ func unpackCorpus(arena string) []*UCase {
 	F := func(n, b string) UEntry { return UEntry{Name: n, Typ: tar.TypeReg, Body: b, Mode: 0644, Mtime: 1400000001} }
 	Fm := func(n, b string, m int64) UEntry { return UEntry{Name: n, Typ: tar.TypeReg, Body: b, Mode: m, Mtime: 1400000001} }
 	D := func(n string, m int64) UEntry { return UEntry{Name: n, Typ: tar.TypeDir, Mode: m, Mtime: 1400000002} }
+	// header times: T sets the modification time, A records an access (and change) time in a header of format f
+	T := func(e UEntry, sec, ns int64) UEntry { e.Mtime, e.MtimeNs = sec, ns; return e }
+	A := func(e UEntry, f string, at int64) UEntry { e.Fmt, e.HasAtime, e.Atime, e.Ctime = f, true, at, at+5; return e }
+	Fm2 := func(e UEntry, f string) UEntry { e.Fmt = f; return e }
 	return []*UCase{
 		mk(F("../dst-evil/x", "hi")),                         // F1 (fixed)
 		mk(L("l", "../dst-evil")),                             // F2 (fixed)
@@ -807,12 +908,24 @@ func unpackCorpus(arena string) []*UCase {
 		// a read-only earlier version that is longer than the later one (seed C15-c; bites unprivileged)
 		mk(Fm("a", "first version of a, the long one", 0400), F("a", "v2")),
 		mk(D("d/", 0755), Fm("d/a", "first version of a, the long one", 0444), Fm("d/a", "v2", 0400), F("d/a", "3")),
+		// recorded times at the edges: the epoch (0 s and 0.4 s; seed C02-f), one second later, both sides of
+		// 2^31, 8^11 (beyond the ustar field)
+		mk(T(F("a", "epoch"), 0, 0), T(F("b", "almost"), 0, 400000000), T(D("e/", 0755), 0, 0), T(F("c", "one"), 1, 0)),
+		mk(T(F("a", "y2038"), 1<<31-1, 0), T(F("b", "y2038+"), 1<<31, 0), T(D("d/", 0750), 1<<33, 0), T(F("d/a", "octal+"), 1<<33, 999999999)),
+		// an access time different from the modification time, in PAX records and in GNU header fields (seed C15-f)
+		mk(A(D("d/", 0755), "", 1500000000), A(F("d/a", "pax-atime"), "", 1500000001), A(F("top", "x"), "", 0)),
+		mk(A(D("d/", 0755), "gnu", 1500000000), A(F("d/a", "gnu-atime"), "gnu", 1500000001), Fm2(F("b", "gnu-plain"), "gnu"), A(T(F("c", "gnu-epoch"), 0, 0), "gnu", 1)),
+		// what Pack writes: format chosen by archive/tar, times rounded to the second, no access time
+		mk(Fm2(F("a", "auto"), "auto"), Fm2(T(F("b", "rounded-up"), 1400000001, 600000000), "auto"), Fm2(D("d/", 0755), "auto"), Fm2(T(F("d/big", "pax-by-need"), 1<<33, 0), "auto")),
+		// explicit 0755 directories next to directories that exist only as parents (under -umask 077 the
+		// former keep 0755, the latter get 0700; seed C09-f: chmod skipped for a recorded 0755)
+		mk(D("x/y/", 0755), F("x/y/f", "explicit"), F("i/j/g", "implicit parents"), D("z/", 0755)),
 	}
 }
 
 func init() {
 	lanes["unpack"] = func(cfg *Config, rep *Report) {
-		rep.Rule = "archives of 1..12 entries over a 31-name universe (plain, nested, leading '/', './', '..' detours, sibling-prefix and parent escapes, through-link names) x {file, dir, symlink over 30 target shapes incl. absolute, chains, '..' after names, sibling prefix; hard link, fifo, devices, PAX global header} x modes x optional pre-existing dst content x optional allow-list; each unpacked into a fresh arena (dst + prefix-sharing siblings + decoy file); non-trivial = has a link, a '..', a duplicate name or a leading '/'; distinct by (init, entries, allow)"
+		rep.Rule = "archives of 1..12 entries over a 31-name universe (plain, nested, leading '/', './', '..' detours, sibling-prefix and parent escapes, through-link names) x {file, dir, symlink over 30 target shapes incl. absolute, chains, '..' after names, sibling prefix; hard link, fifo, devices, PAX global header} x modes x header times (2014 stamps next to the boundary pool 0, 1, 2^31-1, 2^31, 8^11 s and .4/.5/.6/.999999999 s fractions; header format PAX / GNU / chosen by archive/tar; for PAX and GNU an access and change time different from the mtime on 30% of the entries) x optional pre-existing dst content x optional allow-list; with -umask other than 022 the same cases run under that umask without model comparison (oracles only); each unpacked into a fresh arena (dst + prefix-sharing siblings + decoy file); non-trivial = has a link, a '..', a duplicate name or a leading '/'; distinct by (init, entries, allow)"
 		r := NewRng(cfg.Seed)
 		if cfg.Work == "" {
 			rep.Broken = append(rep.Broken, "unpack lane needs -work")
@@ -823,7 +936,11 @@ func init() {
 			rep.Broken = append(rep.Broken, "work dir: "+err.Error())
 			return
 		}
-		syscall.Umask(022)
+		// -umask: the whole lane runs under that umask; any other than 022 is outside the filesystem model
+		// (no requests are sent) and the implementation-level oracles judge alone
+		umask := laneUmask(cfg)
+		syscall.Umask(umask)
+		probeFsTimes(work)
 		type job struct {
 			idx   int
 			c     *UCase
@@ -870,7 +987,16 @@ func init() {
 		human := make([]interface{}, len(jobs))
 		if replay != nil {
 			rep.BeginReplay()
-			runUnpackCase(cfg, rep, replay.idx, replay.c, replay.arena, reqs, impl, human)
+			// the replayed case runs alone: it gets the umask it was recorded under
+			ru := umask
+			if replay.c.Umask != "" {
+				if v, err := strconv.ParseUint(replay.c.Umask, 8, 12); err == nil {
+					ru = int(v)
+				}
+			}
+			syscall.Umask(ru)
+			runUnpackCase(cfg, rep, ru, replay.idx, replay.c, replay.arena, reqs, impl, human)
+			syscall.Umask(umask)
 			os.RemoveAll(replay.arena)
 			rep.EndReplay(reqs[replay.idx])
 			jobs = jobs[:len(jobs)-1]
@@ -883,7 +1009,7 @@ func init() {
 			go func(j job) {
 				defer wg.Done()
 				defer func() { <-sem }()
-				runUnpackCase(cfg, rep, j.idx, j.c, j.arena, reqs, impl, human)
+				runUnpackCase(cfg, rep, umask, j.idx, j.c, j.arena, reqs, impl, human)
 				os.RemoveAll(j.arena)
 			}(j)
 		}
@@ -907,7 +1033,51 @@ func init() {
 	}
 }
 
-func runUnpackCase(cfg *Config, rep *Report, idx int, c *UCase, arena string, reqs, impl []string, human []interface{}) {
+// laneUmask: the umask given with -umask (022 when the Config was built without the flag)
+func laneUmask(cfg *Config) int {
+	if !cfg.UmaskGiven {
+		return 022
+	}
+	return cfg.Umask & 0777
+}
+
+// fsMaxMtime: the largest of the generated times the scratch filesystem stores faithfully (an ext4 with
+// 128-byte inodes or an XFS without bigtime clamps at 2^31-1 / 2038); archives that record a later time
+// are outside what the model and the reference can be compared on there and are skipped (counted).
+var fsMaxMtime int64 = 1<<62
+
+func probeFsTimes(work string) {
+	f := filepath.Join(work, "time-probe")
+	if os.WriteFile(f, nil, 0600) != nil {
+		return
+	}
+	defer os.Remove(f)
+	fsMaxMtime = 1400000000
+	for _, t := range []int64{1<<31 - 1, 1 << 31, 1 << 33, 1<<33 + 86400} {
+		tt := time.Unix(t, 0)
+		if os.Chtimes(f, tt, tt) != nil {
+			return
+		}
+		if fi, err := os.Stat(f); err != nil || fi.ModTime().Unix() != t {
+			return
+		}
+		fsMaxMtime = t
+	}
+	fsMaxMtime = 1<<62
+}
+
+func runUnpackCase(cfg *Config, rep *Report, umask int, idx int, c *UCase, arena string, reqs, impl []string, human []interface{}) {
+	for _, e := range c.Entries {
+		if e.Mtime > fsMaxMtime || (e.HasAtime && e.Atime > fsMaxMtime) {
+			rep.Count("skipped:fs-time-range")
+			return
+		}
+	}
+	if umask != 022 {
+		c.Umask = fmt.Sprintf("%03o", umask)
+	} else {
+		c.Umask = ""
+	}
 	if err := materialise(arena, c.Init); err != nil {
 		rep.mu.Lock()
 		rep.Broken = append(rep.Broken, "materialise: "+err.Error())
@@ -945,6 +1115,8 @@ func runUnpackCase(cfg *Config, rep *Report, idx int, c *UCase, arena string, re
 	dirPermOutside := priv == "0" && unprivDirPermBites(decoded)
 	if dirPermOutside {
 		rep.Count("outside-model:unprivileged-dir-search-bit")
+	} else if umask != 022 {
+		rep.Count("outside-model:umask")
 	} else {
 		reqs[idx] = line
 		impl[idx] = out.class + " " + encArena(arena, after)
@@ -964,6 +1136,17 @@ func runUnpackCase(cfg *Config, rep *Report, idx int, c *UCase, arena string, re
 	rep.Count("result:" + out.class)
 	for _, e := range decoded {
 		rep.Count(fmt.Sprintf("type:%c", e.Typ))
+	}
+	for _, e := range c.Entries {
+		if e.HasAtime {
+			rep.Count("times:atime-recorded")
+		}
+		if e.Fmt != "" {
+			rep.Count("format:" + e.Fmt)
+		}
+		if e.Mtime < 1400000000 || e.Mtime >= 1<<31-1 {
+			rep.Count("times:boundary-mtime")
+		}
 	}
 
 	if out.panicked != nil || out.timeout {
@@ -1104,7 +1287,7 @@ func runUnpackCase(cfg *Config, rep *Report, idx int, c *UCase, arena string, re
 	// ---- C15: well-formed archives are materialised as the reference interpreter says ----
 	dstIsDirOrMissing := !dstExisted || bm[dstRel].Kind == "d"
 	if len(c.Allow) == 0 && onlyStandardInit(c.Init) && wellFormedForC15(decoded) && dstIsDirOrMissing && !dirPermOutside {
-		tree, ok, wantErr := refUntar(decoded)
+		tree, ok, wantErr := refUntar(decoded, umask)
 		if ok {
 			rep.Count("c15:judged")
 			if wantErr {
